@@ -265,7 +265,24 @@ func (p *Prog) line(n ast.Node) int {
 }
 
 // Func returns the function with the given short key or nil.
-func (p *Prog) Func(key string) *FuncInfo { return p.Funcs[key] }
+func (p *Prog) Func(key string) *FuncInfo {
+	if fi := p.Funcs[key]; fi != nil {
+		return fi
+	}
+	// pointer receiver <-> value receiver: a method that mutates nothing may be declared either way
+	return p.Funcs[toggleRecvStar(key)]
+}
+
+// toggleRecvStar turns "(*pkg.T).M" into "(pkg.T).M" and back.
+func toggleRecvStar(k string) string {
+	switch {
+	case strings.HasPrefix(k, "(*"):
+		return "(" + k[2:]
+	case strings.HasPrefix(k, "("):
+		return "(*" + k[1:]
+	}
+	return k
+}
 
 // Pkg returns the product package with the given short path or nil.
 func (p *Prog) Pkg(short string) *packages.Package { return p.Pkgs[short] }
